@@ -85,7 +85,17 @@ pub fn generate(s: &mut Session, tier: &str, rng: &mut Rng) {
         let tail = rng.bytes(tl);
         let ip4 = match i % 4 { 0 => vec![0, 0, 0, 0], 1 => vec![255, 255, 255, 255], 2 => vec![127, 0, 0, 1], _ => rng.bytes(4) };
         one(s, rng, "ipv4", format!("4:{}:{}", hex(&ip4), port), &tail, true);
-        let ip6 = match i % 4 { 0 => vec![0; 16], 1 => vec![255; 16], 2 => { let mut v = vec![0; 16]; v[15] = 1; v }, _ => rng.bytes(16) };
+        // (structured literals too: unspecified, loopback, IPv4-mapped ::ffff:a.b.c.d, IPv4-compatible ::a.b.c.d, 6to4 2002:…, NAT64 64:ff9b::…)
+        let ip6 = match i % 8 {
+            0 => vec![0; 16],
+            1 => vec![255; 16],
+            2 => { let mut v = vec![0; 16]; v[15] = 1; v }
+            3 => { let mut v = vec![0; 16]; v[10] = 0xff; v[11] = 0xff; v[12..].copy_from_slice(&rng.bytes(4)); v }
+            4 => { let mut v = vec![0; 16]; v[12..].copy_from_slice(&rng.bytes(4)); v }
+            5 => { let mut v = vec![0; 16]; v[0] = 0x20; v[1] = 0x02; v[2..6].copy_from_slice(&rng.bytes(4)); v }
+            6 => { let mut v = vec![0; 16]; v[1] = 0x64; v[2] = 0xff; v[3] = 0x9b; v[12..].copy_from_slice(&rng.bytes(4)); v }
+            _ => rng.bytes(16),
+        };
         one(s, rng, "ipv6", format!("6:{}:{}", hex(&ip6), port), &tail, true);
     }
     // malformed / truncated inputs to the decoders
